@@ -448,6 +448,28 @@ fn run_case<K: Kit>(ctx: &Ctx, b: &mut Batch, kit: &K, case: &PrmCase) {
     if b.samples.is_empty() && n >= 3 {
         b.sample(json!({"space":case.problem.spec.describe(),"samples_drawn":drawn,"milestones":n,"links":road.iter().map(|(_,e)| e.len()).sum::<usize>()/2,"radius":r,"P1":res1.short(),"P2":res2.short()}));
     }
+    // 6. second life: a new setup (other problem) must start from an empty roadmap, and whatever
+    //    the planner remembered about the first problem must be gone
+    let Ok(inst4) = d.install(&p2, match &case.script { Some(s) => SampleMode::Scripted(s.clone()), None => SampleMode::PlannerRng }) else { return };
+    if d.setup(inst4) != Res::Done {
+        return;
+    }
+    if d.snapshot().size() != 0 {
+        q.viol("setup-did-not-clear-roadmap", format!("{} milestones right after a new setup", d.snapshot().size()));
+    }
+    let res_unsampled = d.solve_ns(3_600_000_000_000, true);
+    if res_unsampled != Res::Err(ErrKind::UnsampledStateSpace) && !matches!(res_unsampled, Res::Budget | Res::Panic { .. }) {
+        q.viol("query-on-fresh-roadmap-not-reported", format!("solve right after the second setup returned {}", res_unsampled.short()));
+    }
+    if d.construct_roadmap(true) != Res::Done {
+        return;
+    }
+    let Snap::Roadmap(road2) = d.snapshot() else { return };
+    b.count("second_life_roadmaps", 1);
+    let mark = d.log.borrow().recs.len();
+    let res4 = d.solve_ns(3_600_000_000_000, true);
+    let ev4: Vec<Rec> = d.log.borrow().recs[mark..].to_vec();
+    judge_query(&q, b, &road2, &eval, &p2.start, &p2.goal, &res4, &ev4, "P2-after-re-setup");
 }
 
 pub fn run(tier: Tier, seed: u64) -> i32 {
@@ -478,7 +500,7 @@ pub fn run(tier: Tier, seed: u64) -> i32 {
         }
         ctx.merge(b);
     });
-    for k in ["pairs_at_exactly_the_radius", "roadmaps_with_2plus_milestones", "links_checked", "query_paths", "query_nosolution", "hop_minimality_checks", "unreachable_confirmed_by_reference", "queries[P2]", "repeated_constructions"] {
+    for k in ["pairs_at_exactly_the_radius", "roadmaps_with_2plus_milestones", "links_checked", "query_paths", "query_nosolution", "hop_minimality_checks", "unreachable_confirmed_by_reference", "queries[P2]", "queries[P2-after-re-setup]", "repeated_constructions"] {
         ctx.require(k);
     }
     ctx.finish(
